@@ -38,6 +38,32 @@ static bool set_version_attr(const std::string &path, const V3 &v) {
     return ok;
 }
 
+// the same triple stored with another integer storage type (files written by other NIX implementations: h5py stores int64)
+struct StoreType { const char *name; hid_t (*type)(); long long lo, hi; };
+static hid_t t_i8() { return H5T_STD_I8LE; }   static hid_t t_i16() { return H5T_STD_I16LE; } static hid_t t_i16be() { return H5T_STD_I16BE; }
+static hid_t t_i32be() { return H5T_STD_I32BE; } static hid_t t_i64() { return H5T_STD_I64LE; } static hid_t t_i64be() { return H5T_STD_I64BE; }
+static hid_t t_u8() { return H5T_STD_U8LE; }   static hid_t t_u16() { return H5T_STD_U16LE; } static hid_t t_u32() { return H5T_STD_U32LE; }
+static hid_t t_u64() { return H5T_STD_U64LE; }
+static const StoreType STORE_TYPES[] = {
+    {"int8", t_i8, -128, 127}, {"int16", t_i16, -32768, 32767}, {"int16 big-endian", t_i16be, -32768, 32767}, {"int32 big-endian", t_i32be, INT_MIN, INT_MAX},
+    {"int64", t_i64, INT_MIN, INT_MAX}, {"int64 big-endian", t_i64be, INT_MIN, INT_MAX}, {"uint8", t_u8, 0, 255}, {"uint16", t_u16, 0, 65535},
+    {"uint32", t_u32, 0, INT_MAX}, {"uint64", t_u64, 0, INT_MAX}};
+
+static bool set_version_attr_typed(const std::string &path, const V3 &v, hid_t ftype) {
+    hid_t f = H5Fopen(path.c_str(), H5F_ACC_RDWR, H5P_DEFAULT);
+    if (f < 0) return false;
+    bool ok = H5Adelete_by_name(f, "/", "version", H5P_DEFAULT) >= 0;
+    hsize_t dims[1] = {3};
+    hid_t sp = H5Screate_simple(1, dims, nullptr);
+    hid_t a = ok ? H5Acreate_by_name(f, "/", "version", ftype, sp, H5P_DEFAULT, H5P_DEFAULT, H5P_DEFAULT) : -1;
+    ok = ok && a >= 0;
+    if (ok) { int buf[3] = {v[0], v[1], v[2]}; ok = H5Awrite(a, H5T_NATIVE_INT, buf) >= 0; }
+    if (a >= 0) H5Aclose(a);
+    H5Sclose(sp);
+    H5Fclose(f);
+    return ok;
+}
+
 static const char *mode_name(FileMode m) { return m == FileMode::ReadOnly ? "ReadOnly" : m == FileMode::ReadWrite ? "ReadWrite" : "Overwrite"; }
 
 int main(int argc, char **argv) {
@@ -124,6 +150,74 @@ int main(int argc, char **argv) {
             }
         }
         if (ci < 3) vf::sample("{\"stored\":" + vf::jstr(vs(v)) + ",\"library\":" + vf::jstr(vs(L)) + ",\"modes\":\"RO,RW,OW x Force off/on\"}");
+    }
+
+    // ---- the same gate when the triple is stored with another integer type ----
+    // "A file whose format version is (x,y,z)": the statement does not depend on how wide the three integers are stored.
+    for (const V3 &v : cube) {
+        long ci = idx++;
+        if (!vf::take_case(ci)) continue;
+        vf::case_desc("stored version " + vs(v) + " in every integer storage type");
+        for (const StoreType &st : STORE_TYPES) {
+            bool fits = true;
+            for (int c : v) if (c < st.lo || c > st.hi) fits = false;
+            if (!fits) continue;
+            for (FileMode m : modes) for (int force = 0; force < 2; force++) {
+                std::string p = vf::scratch_file("wt.h5");
+                copy_file(base, p);
+                if (!set_version_attr_typed(p, v, st.type())) { vf::violation("C10|harness|cannot plant a typed version attribute", std::string(st.name) + " " + vs(v)); break; }
+                bool expect = force || m == FileMode::Overwrite || (m == FileMode::ReadOnly && v[0] == L[0] && v[1] <= L[1]) || (m == FileMode::ReadWrite && v == L);
+                bool opened = false; V3 seen; size_t nblocks = 99; std::string what;
+                std::string exc = vf::guarded([&] {
+                    File f = File::open(p, m, "hdf5", Compression::Auto, force ? OpenFlags::Force : OpenFlags::None);
+                    opened = true; seen = f.version(); nblocks = f.blockCount(); f.close();
+                }, &what);
+                vf::count("opens_typed");
+                vf::distinct("outcomes", std::string("typed|") + st.name + mode_name(m) + (force ? "F" : "-") + (opened ? "open" : exc));
+                std::string ctx = std::string(mode_name(m)) + (force ? "+Force" : "") + " stored=" + vs(v) + " as " + st.name + " lib=" + vs(L);
+                if (opened != expect)
+                    vf::violation(std::string("C10|File::open|") + mode_name(m) + (force ? "+Force" : "") + "|version stored as " + st.name + "|" + (expect ? "refused but must open" : "opened but must be refused"),
+                                  ctx + ": " + (opened ? "opened" : "refused (" + exc + ": " + what + ")"));
+                else if (opened && m != FileMode::Overwrite && (seen != v || nblocks != 1))
+                    vf::violation(std::string("C10|File::version|") + mode_name(m) + "|version stored as " + st.name + "|differs from stored triple or content lost", ctx + " version()=" + vs(seen) + " blocks=" + std::to_string(nblocks));
+            }
+        }
+    }
+
+    // ---- the same gate while another handle of the same process holds the file open ----
+    // The first handle is opened with Force (so it always opens) ReadOnly or ReadWrite; the second open is the one under test.
+    // Combinations HDF5 itself forbids (ReadWrite or Overwrite while the file is open ReadOnly, Overwrite while it is open) are
+    // not generated.  The answer must be the one the gate formula gives for the REQUESTED mode.
+    for (const V3 &v : cube) {
+        long ci = idx++;
+        if (!vf::take_case(ci)) continue;
+        vf::case_desc("second open of a file with stored version " + vs(v) + " while a first handle is open");
+        for (FileMode m1 : {FileMode::ReadOnly, FileMode::ReadWrite}) for (FileMode m2 : {FileMode::ReadOnly, FileMode::ReadWrite}) for (int force = 0; force < 2; force++) {
+            if (m1 == FileMode::ReadOnly && m2 == FileMode::ReadWrite) continue;
+            std::string p = vf::scratch_file("w2.h5");
+            copy_file(base, p);
+            if (!set_version_attr(p, v)) { vf::violation("C10|File::open|the file of an earlier (refused or closed) open is still held open by the library|version attribute cannot be rewritten", "second-open part, stored=" + vs(v)); break; }
+            bool expect = force || (m2 == FileMode::ReadOnly && v[0] == L[0] && v[1] <= L[1]) || (m2 == FileMode::ReadWrite && v == L);
+            bool first = false, opened = false; V3 seen; size_t nblocks = 99; std::string what, what1;
+            File f1;
+            std::string e1 = vf::guarded([&] { f1 = File::open(p, m1, "hdf5", Compression::Auto, OpenFlags::Force); first = f1.isOpen(); }, &what1);
+            if (!first) { vf::violation(std::string("C10|File::open|") + mode_name(m1) + "+Force|first handle|refused but must open", "stored=" + vs(v) + " " + e1 + " " + what1); continue; }
+            std::string exc = vf::guarded([&] {
+                File f2 = File::open(p, m2, "hdf5", Compression::Auto, force ? OpenFlags::Force : OpenFlags::None);
+                opened = true; seen = f2.version(); nblocks = f2.blockCount(); f2.close();
+            }, &what);
+            bool still = false;
+            vf::guarded([&] { still = f1.isOpen() && f1.blockCount() == 1; f1.close(); });
+            vf::count("opens_second");
+            vf::distinct("outcomes", std::string("second|") + mode_name(m1) + ">" + mode_name(m2) + (force ? "F" : "-") + (opened ? "open" : exc));
+            std::string ctx = std::string("first handle ") + mode_name(m1) + "+Force, then " + mode_name(m2) + (force ? "+Force" : "") + " stored=" + vs(v) + " lib=" + vs(L);
+            if (opened != expect)
+                vf::violation(std::string("C10|File::open|") + mode_name(m2) + (force ? "+Force" : "") + " while a " + mode_name(m1) + " handle of the same process is open|" + (expect ? "refused but must open" : "opened but must be refused"),
+                              ctx + ": " + (opened ? "opened" : "refused (" + exc + ": " + what + ")"));
+            else if (opened && (seen != v || nblocks != 1))
+                vf::violation(std::string("C10|File::version|second handle|differs from stored triple or content lost"), ctx + " version()=" + vs(seen) + " blocks=" + std::to_string(nblocks));
+            if (!still) vf::count("first_handle_unusable_after_closing_the_second");   // not a C10 matter (close() sweeps every object of the shared HDF5 file): a statistic only
+        }
     }
 
     // ---- ordering laws over all ordered pairs, and triples of the sub-cube ----
